@@ -61,6 +61,8 @@ pub struct Stats {
     pub causes_seen: [u32; 4],
     pub shared_owner_drops: u32,
     pub slab_children: u32,
+    pub max_slab: u32,
+    pub slab_storm_kills: u32,
     pub runs: u32,
     pub queries: u32,
 }
@@ -1915,6 +1917,74 @@ pub fn exec_op(env: &mut Env, op: &Op, bag: &mut Vec<Handle>, fr: &mut Frame) {
                 }
             }
         }
+        Op::SlabStorm { n, kill, cull, shape, body, stop_body } => {
+            let parent = match env {
+                Env::Ready(this, _) => this.aid,
+                _ => return,
+            };
+            // cull: kill!() some of the children this actor's slab still holds
+            let victims: Vec<(ActorId, Actor<Act>)> = hx(|h| {
+                if h.dead {
+                    return Vec::new();
+                }
+                let ch = h.mon.actors[parent as usize].slab_children.clone();
+                ch.iter()
+                    .enumerate()
+                    .filter(|(i, _)| (cull >> (*i % 64)) & 1 == 1)
+                    .filter_map(|(_, c)| h.arefs.get(*c as usize).and_then(|x| x.as_ref()).map(|a| (*c, a.clone())))
+                    .collect()
+            });
+            let mut killed = 0u32;
+            for (aid, actor) in victims {
+{
+                    let id = hx(|h| {
+                        let id = h.new_item(Kind::Call(aid), Q::Main, stop_body);
+                        let st0 = h.mon.actors[aid as usize].st;
+                        h.tr(|| format!("call i{} -> a{} ({:?}) [slab storm: stop]", id, aid, st0));
+                        if !h.dead {
+                            h.mon.submit_main(id);
+                        }
+                        id
+                    });
+                    sub_call(&actor, None, shape, id);
+                    killed += 1;
+                }
+            }
+            // storm: n more children, most of them killed at once
+            for i in 0..n as u32 {
+                if hx(|h| h.dead) {
+                    break;
+                }
+                let before = hx(|h| h.mon.actors.len());
+                exec_op(env, &Op::NewActor { style: 2, shape, body, dest: 0 }, bag, fr);
+                let created = hx(|h| if h.mon.actors.len() > before { Some(before as ActorId) } else { None });
+                if let (Some(aid), true) = (created, (kill >> (i % 64)) & 1 == 1) {
+                    let actor = hx(|h| h.arefs.get(aid as usize).and_then(|x| x.as_ref()).cloned());
+                    if let Some(actor) = actor {
+{
+                    let id = hx(|h| {
+                        let id = h.new_item(Kind::Call(aid), Q::Main, stop_body);
+                        let st0 = h.mon.actors[aid as usize].st;
+                        h.tr(|| format!("call i{} -> a{} ({:?}) [slab storm: stop]", id, aid, st0));
+                        if !h.dead {
+                            h.mon.submit_main(id);
+                        }
+                        id
+                    });
+                    sub_call(&actor, None, shape, id);
+                    killed += 1;
+                }
+                    }
+                }
+            }
+            hx(|h| {
+                let live = h.mon.actors[parent as usize].slab_children.len() as u32;
+                if live > h.stats.max_slab {
+                    h.stats.max_slab = live;
+                }
+                h.stats.slab_storm_kills += killed;
+            });
+        }
         Op::Run { .. } | Op::DropStakker => {}
     }
 }
@@ -2304,6 +2374,9 @@ fn summarize(h: &mut Hx) {
     }
     if s.slab_children > 0 {
         rep.class("slab-children");
+    }
+    if s.max_slab >= 17 && s.slab_storm_kills >= 9 {
+        rep.class("slab>=17-children-then-shrunk");
     }
     if m.stat_multi_term_requests > 0 {
         rep.class("stacked-termination-requests");
